@@ -2736,7 +2736,7 @@ def stage_corr_natnorm(ctx, env):
     rng = ctx.rng("corr/natnorm")
     n = ctx.scale(300, 6000)
     one = env.nat.one
-    cases, lines, nf_lines = [], [], []
+    cases, lines, nf_lines, wf_lines = [], [], [], []
     fixed = ["(x * y) * (z * y)", "(x + y) + (z + y)", "(x + y) * (y + z)", "(x + y) * (x + y)", "0 + 1 * x + 0 * y", "x + 2 + y + 3",
              "3 * x * 5 * x", "(x + 2 * y) * (y + 2 * x)", "(3::nat) + 5 * 2", "x + Suc y", "Suc (x + Suc y)", "x * Suc y", "x * 1 * 1 * 1"]
     terms = []
@@ -2776,8 +2776,15 @@ def stage_corr_natnorm(ctx, env):
         # the implementation's own output must have the shape `isNF` (the half of norm_idem that
         # is not proved in Lean)
         nf_lines.append(sexp.dumps(["isnf", ranks[one], sexp.loads(impl)]) if impl.startswith("(") else "(isnf 0 (num 0))")
+        wf_lines.append(sexp.dumps(["wfs", ranks[one], nexp_of(env, t, ranks)]))
     out = ctx.lean_driver(EXE, lines) if lines else []
     nf_out = ctx.lean_driver(EXE, nf_lines) if nf_lines else []
+    # the decidable hypothesis of norm_full_iff_poly / norm_canonical on every generated input
+    for v in (ctx.lean_driver(EXE, wf_lines) or []):
+        ctx.count("wfs:" + v)
+        if v != "T":
+            ctx.broken("correspondence:c10:wfs", "a generated nat term violates the atoms-by-rank hypothesis of norm_canonical")
+            break
     if out is None or nf_out is None:
         ctx.broken("correspondence:c10:driver", "model driver unavailable")
         return
@@ -2862,16 +2869,16 @@ MANIFEST = {
             "(5) Semantic canonicity: poly_canonical_semantic -- over an infinite integral domain (Z, Q) two expressions have the "
             "IDENTICAL convert_to_poly list iff they have the same value under every valuation (via MvPolynomial.funext); "
             "poly_zero_of_eval_zero. "
-            "(6) The nat Conv normaliser data.nat.norm_full (the one nat_norm uses; not built on util/poly.py): norm_sound, "
-            "norm_sound_int, norm_full_poly_invariant (the normal form has the identical polynomial as the term), "
-            "norm_full_eq_poly_partial (same normal form => same polynomial), norm_nf_closed (the result ALWAYS has the "
-            "normal-form shape isNF: norm_add_monomial / norm_add_polynomial / norm_mult_atom / norm_mult_monomial / "
-            "norm_mult_poly_monomial / norm_mult_polynomial preserve it), norm_idem (normalising a normal form changes "
-            "nothing, for every term), norm_fixed_of_isNF, norm_canonical_partial (Suc/x+0/x*0 only). The model's fastCmp now "
-            "decides an atom against a product of the same size as fast_compare does (atom shapes; compared with the real "
-            "function by the bodycmp stream) and is proved antisymmetric with eq only on identical bodies. NOT proved: same "
-            "polynomial => same normal form (canonicity); what remains is injectivity of normal-form trees -> polynomial. "
-            "Truncated subtraction, powers and applications are atoms of this normaliser. "
+            "(6) The nat Conv normaliser data.nat.norm_full (what nat_norm uses; not built on util/poly.py), fragment {atoms, "
+            "numerals, Suc, +, *} (truncated subtraction, powers, applications are atoms): norm_sound, norm_sound_int, "
+            "norm_full_poly_invariant, norm_nf_closed (the result always has the normal-form shape), norm_idem, norm_fixed_of_isNF, and "
+            "CANONICITY: norm_full_iff_poly (identical normal form <=> identical convert_to_poly list), norm_canonical (terms "
+            "related by the ring-axiom congruence get the identical normal form), norm_canonical_semantic (identical normal "
+            "form <=> same value under every integer valuation) -- under the decidable hypothesis that atoms are determined by "
+            "their rank (wfS; the driver's wfs op checks it on every generated input). The model's fastCmp is fast_compare on "
+            "monomial bodies (lexicographic: size, function-part size, head against times, then structure / rank; compared with "
+            "the real function by the bodycmp stream) and is proved a strict total order on product trees (swap, eq only on "
+            "identical trees, transitivity). "
             "(7) The integer Conv normaliser (simp_full, int_norm_conv, int_norm_eq) is modelled (IntModel.lean) and compared tree "
             "for tree with the real conversions' right-hand sides: int_norm_sound (value preserved in Z), int_norm_eq_sound (the "
             "returned lhs = 0 is equivalent to a = b), int_norm_canonical_partial (normal form has the polynomial of the term; same "
